@@ -86,6 +86,19 @@ func ruleRefusalCensus(p *Prog, r *Report) {
 				}
 			}
 		}
+		// refusals moved into a private helper of the package (not another
+		// constructor or checkRep, which have obligations of their own) count
+		// for the function that calls the helper, as long as they are reached
+		// from it
+		for _, h := range refusalHelpers(fn) {
+			for _, b := range h.Blocks {
+				for _, instr := range b.Instrs {
+					if pn, ok := instr.(*ssa.Panic); ok && in.ReachedAny[pn] {
+						live = append(live, pn)
+					}
+				}
+			}
+		}
 		return
 	}
 	type req struct {
@@ -96,9 +109,15 @@ func ruleRefusalCensus(p *Prog, r *Report) {
 	member := func(fn *ssa.Function, live []*ssa.Panic) int {
 		n := 0
 		for _, pn := range live {
-			if lk, key, mp := membershipGuard(pn); lk != nil && insertsSame(fn, mp, key, lk) {
-				n++
+			h := pn.Parent()
+			lk, key, mp := membershipGuard(pn)
+			if lk == nil || !insertsSame(h, mp, key, lk) {
+				continue
 			}
+			if h != fn && !accumulatesAcrossCalls(fn, h, mp) {
+				continue
+			}
+			n++
 		}
 		return n
 	}
@@ -228,4 +247,70 @@ func dominatedByCondOn(b *ssa.BasicBlock, callee string) bool {
 		}
 	}
 	return false
+}
+
+// refusalHelpers lists the unexported, non-constructor, non-checkRep functions
+// of fn's package that fn calls directly or through one such helper.
+func refusalHelpers(fn *ssa.Function) []*ssa.Function {
+	var out []*ssa.Function
+	seen := map[*ssa.Function]bool{fn: true}
+	var walk func(g *ssa.Function, depth int)
+	walk = func(g *ssa.Function, depth int) {
+		if depth > 2 {
+			return
+		}
+		for _, b := range g.Blocks {
+			for _, instr := range b.Instrs {
+				c, ok := instr.(*ssa.Call)
+				if !ok {
+					continue
+				}
+				h := c.Common().StaticCallee()
+				if h == nil || seen[h] || h.Pkg != fn.Pkg || h.Blocks == nil || exported(h) || isFactory(h) ||
+					strings.Contains(h.Name(), "checkRep") || h.Signature.Recv() != nil {
+					continue
+				}
+				seen[h] = true
+				out = append(out, h)
+				walk(h, depth+1)
+			}
+		}
+	}
+	walk(fn, 1)
+	return out
+}
+
+// accumulatesAcrossCalls: the set a helper tests and extends is one of its
+// parameters, and every call of the helper in fn passes a map that is not
+// created anew inside a loop of fn - so that successive calls see what the
+// earlier ones inserted.
+func accumulatesAcrossCalls(fn, h *ssa.Function, mp ssa.Value) bool {
+	idx := -1
+	for i, prm := range h.Params {
+		if ssa.Value(prm) == mp {
+			idx = i
+		}
+	}
+	if idx < 0 {
+		// a set local to the helper: it accumulates within one call (a helper
+		// that walks a whole list, say); nothing to check at the call sites
+		_, local := mp.(*ssa.MakeMap)
+		return local
+	}
+	found := false
+	for _, b := range fn.Blocks {
+		for _, instr := range b.Instrs {
+			c, ok := instr.(*ssa.Call)
+			if !ok || c.Common().StaticCallee() != h || idx >= len(c.Common().Args) {
+				continue
+			}
+			found = true
+			if def, ok := c.Common().Args[idx].(ssa.Instruction); ok {
+				if _, isPhi := def.(*ssa.Phi); isPhi || inLoop(def.Block()) {
+					return false
+				}
+			}
+		}
+	}
+	return found
 }
